@@ -154,7 +154,7 @@ func c01(args []string) {
 				modes = goFailModes
 			}
 			for _, m := range modes {
-				always := k == 0 && (m == "omit-output" || m == "wrong-place" || m == "sigkill-shell" || m == "exit-after-write")
+				always := k == 0 && (m == "omit-output" || m == "wrong-place" || m == "sigkill-shell" || m == "exit-after-write" || strings.HasPrefix(m, "panic-"))
 				if !c.Thorough() && !always && rng.Intn(2) == 0 {
 					continue
 				}
